@@ -80,6 +80,11 @@ def build_cases(tier, seed):
     for k in range(len(two)):
         if k % 3 == 0:
             cs.append(("bt_mcmc", "name_BradleyTerry_MCMC", ("two", k), 0, {}))
+    for k, p in enumerate(gens.three_bloc_params(tier)):
+        for model in ("name_PlackettLuce", "name_BradleyTerry", "name_Cumulative", "slate_PlackettLuce"):
+            for N in (1, 2, 3):
+                ex = {"num_votes": 2} if model == "name_Cumulative" else {}
+                cs.append(("law", model, ("three", k), N, ex))
     for n in (2, 3):
         for N in (1, 2):
             cs.append(("ic", "ImpartialCulture", ("cands", n), N, {}))
@@ -115,6 +120,8 @@ def params_of(ref):
         return gens.two_bloc_params(_TIER[0])[k]
     if kind == "one":
         return gens.one_bloc_params(_TIER[0])[k]
+    if kind == "three":
+        return gens.three_bloc_params(_TIER[0])[k]
     return None
 
 
